@@ -29,8 +29,31 @@ def sep(l):
     l = list(l)
     return ",".join(l) if l else "-"
 
+# Unicode keys (lodict beyond ASCII): on the wire a key is the token u<hex4>u<hex4>…; the implementation is driven with
+# the real strings; KF turns a key of the implementation back into its token; LOWER is key.lower() on tokens
+import re
+UTOK = re.compile(r"(?:u[0-9a-f]{4})+")
+KF = [lambda k: k]
+LOWER = [lambda t: t.lower()]
+
+
+def utok(k):
+    return "".join("u%04x" % ord(c) for c in k)
+
+
+def unutok(t):
+    return "".join(chr(int(t[i + 1:i + 5], 16)) for i in range(0, len(t), 5))
+
+
+def ulower(t):
+    return utok(unutok(t).lower())
+
+
+def skeys(l):
+    return sep(KF[0](k) for k in l)
+
 def fpairs(l):
-    return sep("%s=%s" % (k, fint(v)) for k, v in l)
+    return sep("%s=%s" % (KF[0](k), fint(v)) for k, v in l)
 
 def fint(v):
     return repr(v) if isinstance(v, int) and not isinstance(v, bool) else "?" + repr(v)
@@ -196,7 +219,7 @@ def d_exec(objs, w):
     if op == "len":
         return "n %d" % len(o)
     if op == "keys":
-        return "k " + sep(o.keys())
+        return "k " + skeys(o.keys())
     if op == "values":
         return "vs " + sep(fint(v) for v in o.values())
     if op == "items":
@@ -229,7 +252,7 @@ def d_exec(objs, w):
         r = o.pop(w[2]) if w[3] == "~" else o.pop(w[2], int(w[3]))
         return "v " + fint(r)
     if op == "popitem":
-        k, v = o.popitem(); return "p %s=%s" % (k, fint(v))
+        k, v = o.popitem(); return "p %s=%s" % (KF[0](k), fint(v))
     if op == "reorder":
         o.reorder(obj(objs, w[2])); return "None"
     if op == "reorderbad":
@@ -246,7 +269,7 @@ def d_exec(objs, w):
     if op == "eq":
         return fbool(o == obj(objs, w[2]))
     if op == "rev":
-        return "k " + sep(list(reversed(o)))
+        return "k " + skeys(list(reversed(o)))
     if op in ("ior", "or"):
         return ior_or(objs, o, int(w[1]), op, w)
     raise BadOp()
@@ -499,7 +522,8 @@ def s_exec(objs, w):
 
 
 KIND = {"d": (d_exec, d_dump, d_consistency), "m": (m_exec, m_dump, m_consistency), "s": (s_exec, s_dump, s_consistency),
-        "p": (s_exec, s_dump, s_consistency)}      # "p": the same oset calls, answered by the cell-level Lean model
+        "p": (s_exec, s_dump, s_consistency),
+        "l": (m_exec, m_dump, m_consistency)}     # "l": modict calls answered by the list-object Lean model      # "p": the same oset calls, answered by the cell-level Lean model
 
 
 def universe_of(case):
@@ -547,10 +571,25 @@ def run_impl(case):
 
 
 def _run_impl(case, out):
+    if case.get("uni"):
+        KF[0] = utok
+        try:
+            real = dict(case, ops=[[UTOK.sub(lambda m: unutok(m.group(0)), t) for t in w] for w in case["ops"]])
+            real.pop("uni")
+            toks = set(m for w in case["ops"] for t in w for m in UTOK.findall(t))
+            keys = set(unutok(t) for t in toks)
+            _run_impl2(real, out, universe=sorted(keys | {k.lower() for k in keys} | {k.upper() for k in keys}))
+        finally:
+            KF[0] = lambda k: k
+        return out
+    return _run_impl2(case, out)
+
+
+def _run_impl2(case, out, universe=None):
     ex, dump, cons = KIND[case["kind"]]
     objs = []
     out.append("ok")
-    uni = universe_of(case)
+    uni = universe if universe is not None else universe_of(case)
     for w in case["ops"]:
         try:
             r = ex(objs, w)
@@ -584,7 +623,7 @@ class RefD:
         for k, v in pairs:
             self.set(k, v)
     def n(self, k):
-        return k.lower() if self.low else k
+        return LOWER[0](k) if self.low else k
     def find(self, k):
         k = self.n(k)
         for e in self.it:
@@ -987,9 +1026,9 @@ def related_d(rng):
     return ops, n
 
 
-def gen_d(rng, n_ops, keys=DKEYS):
+def gen_d(rng, n_ops, keys=DKEYS, uni=False):
     ops, n = [], 0
-    if rng.random() < 0.35:
+    if not uni and rng.random() < 0.35:
         ops, n = related_d(rng)
         n_ops = max(0, n_ops - len(ops))
     # start with one or two objects
@@ -1033,6 +1072,8 @@ def gen_d(rng, n_ops, keys=DKEYS):
             else: ops.append(["newfk", rng.choice(["od", "lod"]), sep(rng.choice(keys) for _ in range(rng.randrange(0, 4))), str(rng.randrange(-3, 10))])
             n += 1
         elif n < 6: ops.append(["newfrom", rng.choice(["od", "lod"]), oi()]); n += 1
+    if uni:
+        return {"kind": "d", "ops": ops, "uni": True}
     return sanitize({"kind": "d", "ops": ops})
 
 
@@ -1082,6 +1123,28 @@ def gen_m(rng, n_ops, keys=MKEYS):
     return {"kind": "m", "ops": ops}
 
 
+def gen_l(rng, n_ops, keys=MKEYS):
+    """the modict calls that create lists or append to them, on several modicts made from one another: whether two
+    modicts (a copy and its original …) share a value list shows as soon as one of them is appended to"""
+    ops, n = [["new", rpairs(rng, keys, 1, 6)]], 1
+    def oi(): return str(rng.randrange(n))
+    def key(): return rng.choice(keys)
+    def val(): return str(rng.randrange(-3, 10))
+    for _ in range(n_ops):
+        c = rng.randrange(20)
+        if c < 6: ops.append([rng.choice(["set", "append"]), oi(), key(), val()])
+        elif c < 8: ops.append(["replace", oi(), key(), val()])
+        elif c < 10: ops.append(["del", oi(), key()])
+        elif c < 11: ops.append(["clear", oi()])
+        elif c < 13: ops.append(["update", oi(), rpairs(rng, keys)])
+        elif c < 15 and n > 1:
+            i = rng.randrange(n); j = rng.choice([x for x in range(n) if x != i])
+            ops.append(["updatefrom", str(i), str(j)])
+        elif c < 19 and n < 5: ops.append([rng.choice(["copy", "newfrom", "pickle"]), oi()]); n += 1
+        elif n < 5: ops.append(["new", rpairs(rng, keys, 0, 5)]); n += 1
+    return {"kind": "l", "ops": ops}
+
+
 def gen_p(rng, n_ops, keys=SKEYS):
     """only the calls oset implements itself on its cells: add / discard / pop / in / len / iteration / reversed"""
     def klist(lo=0, hi=6): return sep(rng.choice(keys) for _ in range(rng.randrange(lo, hi + 1)))
@@ -1128,11 +1191,54 @@ def gen_s(rng, n_ops, keys=SKEYS):
     return {"kind": "s", "ops": ops}
 
 
+UKEYS = ["\u0130", "i\u0307", "I", "i", "\u00df", "\u1e9e", "SS", "ss", "\u01c5", "\u01c6", "\u01c4", "\u212a", "k", "K",
+         "\u03a3", "\u03c3", "\u03c2", "\u00c9", "\u00e9"]
+# İ, i + combining dot, I, i, ß, ẞ, SS, ss, ǅ, ǆ, Ǆ, Kelvin sign, k, K, Σ, σ, final ς, É, é
+
+
+class lower_of(object):
+    """within: LOWER is the real str.lower on key tokens if the case has Unicode keys"""
+    def __init__(self, case):
+        self.uni = bool(case.get("uni"))
+    def __enter__(self):
+        if self.uni:
+            LOWER[0] = ulower
+    def __exit__(self, *a):
+        LOWER[0] = lambda t: t.lower()
+
+
+def lowtab(case):
+    toks = set(m for w in case["ops"] for t in w for m in UTOK.findall(t))
+    tab = {}
+    for t in sorted(toks):
+        a = t
+        for _ in range(3):
+            b = ulower(a)
+            tab[a] = b
+            a = b
+    return sep("%s=%s" % kv for kv in sorted(tab.items()))
+
+
+def unicode_lower_facts():
+    """what str.lower does on the non-ASCII key universe (recorded in the evidence)"""
+    rows = {}
+    for k in UKEYS:
+        l = k.lower()
+        rows[ascii(k)] = {"lower": ascii(l), "idempotent": l.lower() == l, "casefold_differs": k.casefold() != l}
+    return {"keys": rows,
+            "all_idempotent": all(r["idempotent"] for r in rows.values()),
+            "laws_checked": "C39_lodict_* need only lower(lower k) = lower k, which holds for every key here; the runs compare "
+                            "lodict on these keys with the model using the real str.lower as `lower`",
+            "not_case_insensitive_in_the_casefold_sense": "str.lower keeps ß/ẞ→ß apart from SS/ss, final ς apart from Σ/σ: "
+                            "lodict treats them as different keys (str.casefold would merge them)"}
+
+
 def sanitize(case):
     """while D39f is not in /repo: a pickle01 of an odict/lodict that is empty at that point becomes a pickle"""
     if D39F_APPLIED or case["kind"] != "d" or not any(w[0] == "pickle01" for w in case["ops"]):
         return case
-    lines = ref_d(case["ops"])
+    with lower_of(case):
+        lines = ref_d(case["ops"])
     ops, dumps = [], []
     for n, w in enumerate(case["ops"]):
         if " | " in lines[n]:                      # the state before call n: the last line that carries a dump
@@ -1146,7 +1252,8 @@ def sanitize(case):
 
 
 ALLOC = {"d": {"new", "newfrom", "newfk", "copy", "sift", "pickle", "pickle01", "or"}, "m": {"new", "newfrom", "copy", "fromkeys", "pickle", "or"},
-         "s": {"new", "or", "and", "sub", "rsub", "xor", "pickle"}, "p": {"new"}}
+         "s": {"new", "or", "and", "sub", "rsub", "xor", "pickle"}, "p": {"new"},
+         "l": {"new", "newfrom", "copy", "pickle"}}
 
 
 class CHECK(core.Check):
@@ -1169,16 +1276,19 @@ class CHECK(core.Check):
                "CPython dict/list semantics (dict.update on a dict subclass that overrides __iter__, list.insert "
                "index clamping, collections.abc.MutableSet mixins) as transcribed in Model/Containers.lean",
                "keys are ASCII alphanumeric strings (str.lower = ASCII lower), values are ints"]
-    PARTIAL = ["C39_lodict_* are proved for any idempotent `lower`; for the driver's keys (ASCII) C39_lowerStr_idempotent "
-               "discharges it; Unicode case mapping of str.lower is not modelled",
-               "pickle round trips: odict/lodict at protocols 2-5 + copy.copy + copy.deepcopy (model: __new__, items stored "
-               "through __setitem__, then __setstate__) and at protocols 0-1 (model: dict part filled directly, no _keys, then "
-               "__setstate__) — except an EMPTY odict/lodict at protocol 0/1, which /repo returns unusable (defect D39f, patch "
-               "delivered, not generated until applied); modict (own __reduce__) and oset at protocols 0-5 + copy + deepcopy; "
-               "the pickle byte stream itself is not modelled",
-               "oset: two models - the cells/sentinel/map structure (Model/OsetLinks.lean, add/discard/pop/iteration, proved to "
-               "represent the key list: C39_oset_links_refine_list) and the key-list model on which the MutableSet mixin "
-               "methods are transcribed; Python object identity of cells = index, garbage cells are never reused",
+    PARTIAL = ["lodict keys beyond ASCII: C39_lodict_* are proved for any idempotent `lower`; ASCII keys use the model's own "
+               "lower (C39_lowerStr_idempotent); for non-ASCII keys (İ, i+U+0307, ß, ẞ, SS, ǅ, ǆ, Ǆ, Kelvin sign, Σ, σ, final ς, É, é) "
+               "the runs hand the real str.lower of the key universe to the model as a table, idempotence is checked on it and "
+               "recorded in coverage.unicode_lower; str.lower is not casefold: ß/SS and ς/σ stay different keys",
+               "pickle: the byte stream is not modelled; what is modelled is which constructor path each protocol takes "
+               "(odict/lodict protocols 0-5 + copy.copy/deepcopy through __new__, SETITEMS, __setstate__ since D39f, empty ones "
+               "included; modict through its __reduce__ = modict(allitems()); oset = its elements re-added in order, "
+               "C39_oset_pickle_equal) and the round trips of all four classes at protocols 0-5 are compared",
+               "oset: the MutableSet mixin methods are transcribed on the key-list model, the methods oset defines itself also on "
+               "the cell-level model (C39_oset_links_refine_list); Python object identity of cells = index",
+               "modict value lists as objects (Model/ModictLists.lean, C39_modict_lists_separate, C39_modict_copy_independent): "
+               "covers append/replace/del/clear/update/update(other)/copy/construction; the lists handed OUT to the caller "
+               "(getlist, listitems, poplist return the stored list object itself) can of course be mutated by the caller: not modelled",
                "modict.update(itself) never returns (appends to the lists it iterates): excluded from the generated calls",
                "modict's inherited insert/reorder/sift(fields) store bare values instead of lists (broken for modict): "
                "not in the modelled call alphabet",
@@ -1200,7 +1310,11 @@ class CHECK(core.Check):
                   "represents that list and its add/discard/pop/in/len/iteration/reversed agree with the list model "
                   "(C39_oset_links_refine_list, C39_oset_links_init). Several live objects with by-reference arguments and aliasing: all "
                   "stay well formed, a call changes only its receiver, copies are equal and independent (C39_heap_invariant, "
-                  "C39_heap_history_invariant, C39_heap_frame, C39_copy_equal_independent). The model is of /repo (which has the fixes "
+                  "C39_heap_history_invariant, C39_heap_frame, C39_copy_equal_independent); keys()/values()/items()/len() are one "
+                  "consistent picture for every live odict/lodict after any history and for every well formed modict "
+                  "(C39_heap_views_consistent, C39_modict_views_consistent); with the per-key value lists of modict as objects, no two "
+                  "modicts ever hold the same list and a call on one never changes another (C39_modict_lists_separate, "
+                  "C39_modict_copy_independent); an oset round trip keeps elements and order (C39_oset_pickle_equal). The model is of /repo (which has the fixes "
                   "D23 x3, D39a-d) + fixes/D39e (odict.__reversed__/__or__/__ior__) and is tied to the code by running the same call "
                   "sequences on the real objects.")
     LEVEL_NOTE = ("Trusted: Lean kernel; axioms propext, Classical.choice, Quot.sound; the hand transcription of odicting.py / "
@@ -1217,10 +1331,14 @@ class CHECK(core.Check):
         for i in range(n):
             n_ops = rng.choice([1, 3, 6, 10, 15, 20, 30])
             k = rng.random()
-            if k < 0.5:
+            if k < 0.07:
+                yield gen_d(rng, n_ops, keys=[utok(x) for x in UKEYS], uni=True)
+            elif k < 0.5:
                 yield gen_d(rng, n_ops)
             elif k < 0.72:
                 yield gen_m(rng, n_ops)
+            elif k < 0.78:
+                yield gen_l(rng, n_ops)
             elif k < 0.92:
                 yield gen_s(rng, n_ops)
             else:
@@ -1279,10 +1397,15 @@ class CHECK(core.Check):
         def line(w):
             if D39F_APPLIED and case["kind"] == "d" and w[0] == "pickle01":
                 w = ["pickle"] + w[1:]          # with D39f every protocol takes the __new__ path
-            if case["kind"] in ("m", "s", "p") and w[0] == "pickle01":
+            if case["kind"] in ("m", "s", "p", "l") and w[0] == "pickle01":
                 w = ["pickle"] + w[1:]
             return case["kind"] + " " + " ".join(w)
+        if case.get("uni"):
+            return ["reset", "lowtab " + lowtab(case)] + [line(w) for w in case["ops"]]
         return ["reset"] + [line(w) for w in case["ops"]]
+
+    def model_post(self, case, replies):
+        return replies[:1] + replies[2:] if case.get("uni") else replies
 
     def impl(self, case):
         return run_impl(case)
@@ -1299,7 +1422,8 @@ class CHECK(core.Check):
             return why + "  [a later call (%d) did not return]" % k
         if out == ["SKIPPED"]:
             return None
-        why = self._oracle(case, out)
+        with lower_of(case):
+            why = self._oracle(case, out)
         if why is not None:
             self._any_failure = True
         return why
@@ -1311,7 +1435,7 @@ class CHECK(core.Check):
         if self._pure_timeouts and not self._any_failure:
             raise core.HarnessTimeout("%d container call(s) did not return within the limit and nothing observed before them "
                                       "violates the property; first: %s" % (len(self._pure_timeouts), self._pure_timeouts[0]))
-        return {}
+        return {"unicode_lower": unicode_lower_facts()}
 
     def _oracle(self, case, out):
         for n, line in enumerate(out):
@@ -1319,7 +1443,7 @@ class CHECK(core.Check):
                 return "step %d %s: %s" % (n, " ".join(case["ops"][n - 1]) if n else "", line[-160:])
         if case["kind"] in ("s", "p"):
             return oracle_s(case, out)
-        want = (ref_d if case["kind"] == "d" else ref_m)(case["ops"])
+        want = (ref_d if case["kind"] == "d" else ref_m)(case["ops"])      # kinds m and l: the reference multi-dictionary
         if len(want) != len(out):
             return "reference has %d lines, implementation %d" % (len(want), len(out))
         for n, (a, b) in enumerate(zip(out, want)):
@@ -1337,14 +1461,15 @@ class CHECK(core.Check):
         n = len(case["ops"])
         errs = sum(1 for l in out[1:] if l.startswith("ERR"))
         size = "len<=4" if n <= 4 else "len5-12" if n <= 12 else "len13+"
-        return "%s/%s/%s" % ({"d": "odict+lodict", "m": "modict", "s": "oset", "p": "oset-cells"}[case["kind"]], size,
+        return "%s%s/%s/%s" % ("unicode-keys:" if case.get("uni") else "", {"d": "odict+lodict", "m": "modict", "s": "oset", "p": "oset-cells", "l": "modict-list-objects"}[case["kind"]], size,
                              "no-raise" if errs == 0 else "raises<=25%" if errs * 4 <= n else "raises>25%")
 
     def shrink_candidates(self, case):
         ops = case["ops"]
         # shorter prefixes first, then removal of single calls that do not create an object
+        extra = {"uni": True} if case.get("uni") else {}
         for k in range(1, len(ops)):
-            yield sanitize({"kind": case["kind"], "ops": ops[:k]})
+            yield sanitize(dict(extra, kind=case["kind"], ops=ops[:k]))
         for i in range(len(ops)):
             if ops[i][0] not in ALLOC[case["kind"]]:
-                yield sanitize({"kind": case["kind"], "ops": ops[:i] + ops[i + 1:]})
+                yield sanitize(dict(extra, kind=case["kind"], ops=ops[:i] + ops[i + 1:]))
